@@ -101,7 +101,7 @@ func main() {
 			}
 			for _, im := range file.Imports {
 				p, _ := strconv.Unquote(im.Path.Value)
-				if (p == "slices" || p == "cmp" || p == "reflect") && im.Name == nil {
+				if (p == "slices" || p == "cmp" || p == "reflect" || p == "bytes") && im.Name == nil { // bytes: bytesbuf.go
 					u.Imports[p] = "<std>/" + p
 				}
 				if p == "encoding/json" && im.Name == nil {
